@@ -360,3 +360,50 @@ func TestC06Exhaustive(t *testing.T) {
 	}
 	_ = strings.Repeat
 }
+
+// TestC06Magic: decorated forms of valid numbers - the human-readable interpretation line with its blanks or hyphens,
+// scanner symbology identifiers (]E0, ]E4), labels, add-ons, signs, surrounding whitespace, digits of other scripts.
+// All of them contain a non-digit or have a wrong length: "given 8 or 13 digits it succeeds exactly when ...".
+func TestC06Magic(t *testing.T) {
+	st := NewStats("C06", "magic")
+	defer st.Flush()
+	ct := &collectTB{}
+	var cases []string
+	for _, n := range []string{"5901234123457", "4006381333931", "0000000000000", "9999999999994", "55123457", "96385074", "00000000", "590123412345", "5512345"} {
+		cases = append(cases, n)
+		for _, sep := range []string{" ", "-", ".", " ", "\t"} {
+			if len(n) >= 12 {
+				cases = append(cases, n[:1]+sep+n[1:7]+sep+n[7:], n[:1]+sep+n[1:], n[:7]+sep+n[7:], n[:3]+sep+n[3:7]+sep+n[7:12]+sep+n[12:])
+			} else {
+				cases = append(cases, n[:4]+sep+n[4:], n[:1]+sep+n[1:], sep+n[:4]+sep+n[4:]+sep)
+			}
+			cases = append(cases, sep+n, n+sep, sep+n+sep)
+		}
+		for _, pre := range []string{"]E0", "]E4", "]E3", "]e0", "]C1", "]d2", "EAN", "EAN-13:", "EAN13 ", "GTIN:", "(01)", "(01)0", "01", "0", "00", "+", "-", "#", "0x", "\ufeff", "\x00"} {
+			cases = append(cases, pre+n)
+		}
+		for _, suf := range []string{"+12", "+12345", " 12", " 12345", "-5", "\n", "\r\n", "\x00", ".0", "e0", "X", ">", "12", "12345"} {
+			cases = append(cases, n+suf)
+		}
+		full := []rune(n)
+		for i := range full {
+			full[i] = '０' + (full[i] - '0')
+		}
+		cases = append(cases, string(full), n[:len(n)-1]+string('٠'+rune(n[len(n)-1]-'0')))
+	}
+	parallelFor(len(cases), 16, func(i int) {
+		if ct.Failed() {
+			return
+		}
+		ct.guard(func() {
+			ok := checkEAN(ct, EANCase{Code: BStr(cases[i])})
+			st.Eval()
+			c06Account(st, cases[i], ok)
+			st.Class("decorated form of a valid number")
+		})
+	})
+	st.Sample("magic", EANCase{Code: BStr(cases[3])})
+	if ct.Failed() {
+		t.Fatalf("%s", ct.first)
+	}
+}
